@@ -275,6 +275,19 @@ Theorem prof_select_exact : forall (re_match re_full : string -> string -> bool)
 Proof. intros re_match re_full Hl. intros. now apply (prof_select_statement_exact re_match re_full Hl). Qed.
 Print Assumptions prof_select_exact.
 
+(* A Series request with several matchers (PlanSeries builds one UNION ALL member per matcher; since fix c94f1fe member i
+   reads the WITH fp_i holding the selector statement of matcher i -- tied byte for byte on every run): the fingerprints the
+   members read together are exactly the stored series satisfying at least one of the matchers. *)
+Theorem prof_series_multi_matcher_exact : forall (re_match re_full : string -> string -> bool),
+  (forall v p, re_match v (anchor p) = re_full v p) ->
+  forall tbl from_ns to_ns scripts series fp, pdb_ok series ->
+    (forall sels, List.In sels scripts -> (List.length (snd (split_selectors (pos_sels re_full sels))) <= 63)%nat) ->
+    (List.In fp (prof_series_fps re_match re_full tbl from_ns to_ns scripts (pgin_of series)) <->
+     exists sels, List.In sels scripts /\
+                  List.In fp (prof_expected re_full (from_day from_ns) (to_ns / (86400 * 1000000000)) sels series)).
+Proof. exact prof_series_union_exact. Qed.
+Print Assumptions prof_series_multi_matcher_exact.
+
 (* the same over the list reading, for any date bounds *)
 Theorem prof_select_exact_reading : forall (re_match re_full : string -> string -> bool),
   (forall v p, re_match v (anchor p) = re_full v p) ->
